@@ -445,7 +445,7 @@ def frozen_path(prop):
 
 
 # atom categories whose LOSS raises an alarm (engine/atoms.py; chosen on the seeded and benign corpora, DESIGN 3.13)
-ALARM_CATS = tuple((os.environ.get("CKB_VERIF_ATOM_CATS") or "call,recv,arg,dec,must,mustq,new,fld,set").split(","))
+ALARM_CATS = tuple((os.environ.get("CKB_VERIF_ATOM_CATS") or "call,recv,arg,dec,must,new,fld,set").split(","))
 _CAT_TEXT = {"call": "no longer calls", "recv": "no longer applies (receiver)", "arg": "no longer passes (argument form)", "dec": "no longer tests",
              "must": "rejection test no longer on every successful path:", "mustcall": "no longer on every successful path: call of", "mustq": "fallible step no longer on every successful path:", "new": "no longer builds",
              "fld": "no longer initialises (field form)", "set": "no longer assigns (field form)"}
@@ -461,8 +461,33 @@ def _head(x):
     return x[:i] if i > 0 else x
 
 
-def atom_losses(ref, cur, cats):
-    """ref / cur: {function path: {category: [atoms]}}. Returns (lost, gone_missing, gone_ok):
+def _dec_head(x):
+    """operator and error tag of a dec atom"""
+    try:
+        i = x.rfind("]")
+        return json.loads(x[:i + 1])[0] + x[i + 1:]
+    except Exception:
+        return x
+
+
+def via_new_call(c, x, have, gained_calls):
+    """some atom the function has now has the same head as the lost atom `x` and mentions a workspace function that the function did not call
+    in the reference (`start + length - 1` became `epoch.last_block_number()`; three `collect()`s became `split_body(..)`)"""
+    if not gained_calls:
+        return False
+    hd = _dec_head(x) if c == "dec" else _head(x)
+    for y in have:
+        if y == x or (_dec_head(y) if c == "dec" else _head(y)) != hd:
+            continue
+        for g in gained_calls:
+            if ('"call:%s"' % g) in y or ('"call:::%s"' % g.split("::")[-1]) in y:
+                return True
+    return False
+
+
+def atom_losses(ref, cur, cats, reach=None):
+    """`reach(path)`: {directly called workspace function: names reachable from it} of the current function (atoms.callee_reach), or None.
+    ref / cur: {function path: {category: [atoms]}}. Returns (lost, gone_missing, gone_ok):
       lost[path]         atoms of a function still present that it no longer has and that did not move
       gone_missing[path] atoms of a function that no longer exists which are found nowhere among what the crate's functions gained
       gone_ok            functions that no longer exist but whose atoms were all found again (renamed / inlined)
@@ -520,18 +545,23 @@ def atom_losses(ref, cur, cats):
                 gone_ok.append(path)
             continue
         hatoms = cur[path]
+        gained_calls = set(hatoms.get("call", [])) - set(watoms.get("call", []))
         l = []
         for c in cats:
             hv = set(hatoms.get(c, []))
             for x in watoms.get(c, []):
-                if x in hv:
+                if x in hv or x.endswith(" ?"):
                     continue
                 if c in ("call", "arg", "recv", "mustcall", "mustq") and x.split(" ")[0] in gone_short:
                     continue      # a call of a function that no longer exists: decided where that function's atoms are looked for
                 if moved(cr, c, x, path):
                     continue
+                if c in ("call", "mustq", "mustcall") and reach is not None and gained_calls and any(x in reach(path).get(g, ()) for g in gained_calls):
+                    continue      # no longer called directly, but a function this one did not call before reaches it (the step moved behind a helper)
                 if c == "arg" and (_head(x) + " ?") in hv:
                     continue      # the same argument is still passed; its value is opaque to the form analysis now
+                if c in ("arg", "recv", "fld", "set", "dec") and via_new_call(c, x, hv, gained_calls):
+                    continue      # the same step / test is still there and its operand now comes out of a function this one did not call before
                 l.append((c, x))
         if l:
             lost[path] = l
@@ -553,7 +583,14 @@ def check(R, F, prop, S=None):
     fz = frozen["functions"]
     R.sites += len(cur)
     cats = [c for c in ALARM_CATS if c]
-    lost_by_fn, gone_missing, gone_ok = atom_losses({p_: (v.get("atoms") or {}) for p_, v in fz.items()}, {p_: (v[1].get("atoms") or {}) for p_, v in cur.items()}, cats)
+    groups = {}
+
+    def reach(path):
+        if path not in groups:
+            b0 = cur[path][0]
+            groups[path] = A.callee_reach([b0] + list(b0.nested()), S) if S is not None else {}
+        return groups[path]
+    lost_by_fn, gone_missing, gone_ok = atom_losses({p_: (v.get("atoms") or {}) for p_, v in fz.items()}, {p_: (v[1].get("atoms") or {}) for p_, v in cur.items()}, cats, reach)
 
     n_ok = n_review = 0
     for path, want in sorted(fz.items()):
